@@ -278,6 +278,17 @@ def shard_misc(which):
             resp = xmlgen.run_docs(w, [xdoc], kind="xml")[0]
             judge(part, resp, "process set / member access (xml) %r" % doc[-90:], {"op": "xml", "buf": xdoc}, "process-set")
         return part.result()
+    if which == "dynpairs":
+        # a dynamic template announced with one parameter list and defined with another (fewer, more, other names and kinds, text that
+        # stops parsing), XML and XTA; and the spaces of expressions over dynamic templates
+        sys.path.insert(0, os.path.dirname(os.path.abspath(__file__)))
+        import c01
+        for name, doc, kind in c01.dynamic_docs("thorough"):
+            if kind == "xmlq" or not (name.startswith("sem:dyn-params") or name.startswith("sem:dyn-op")):
+                continue
+            resp = xmlgen.run_docs(w, [doc], kind=kind)[0]
+            judge(part, resp, "dynamic template " + name, {"op": kind, "buf": doc}, "dynamic-template")
+        return part.result()
     if which == "dup":
         for name, doc in dup_docs():
             kind = "xta" if name.startswith("xta:") else "xml"
@@ -335,7 +346,7 @@ def main():
         rep.merge(res)
     for res in engine.pmap(shard_struct, [[p] for p in small]):
         rep.merge(res)
-    for res in engine.pmap(shard_misc, ["dup", "xta", "psets"]):
+    for res in engine.pmap(shard_misc, ["dup", "xta", "psets", "dynpairs"]):
         rep.merge(res)
     for res in engine.pmap(shard_extras, [(i, n) for i in range(n)]):
         rep.merge(res)
